@@ -131,6 +131,26 @@ theorem C07_gen_of_closure (D : CfgData) (T : Trace) (j g v : Nat) (s : Scope) (
   have := C07_closures_partial D (T.nodeAt j) g v s hs hcov
   simpa [liveGenOK] using this
 
+/-- **C07_closures** on the serialised real data: a value that a local function reads during a later step `j` (the function,
+or one enclosing it, reaches `j` according to the real `DEFINED_FNS_IN`, is not a lambda and has the variable in
+`read − bound`) is live at the exit of step `i` and at the entry of step `i+1`. -/
+theorem C07_closures (D : CfgData) (V : List Nat) (IN OUT : St Nat) (T : Trace)
+    (hfix : isPostFix (Graph.revEdges D.graph.edges) V (liveFlow D) OUT IN = true)
+    (hpath : isPathB D.graph.edges V T = true)
+    (i j v g : Nat) (hj : j < T.length) (s : Scope) (hs : D.scopeOf (T.nodeAt j) = some s)
+    (hcov : closureReadCovered D (T.nodeAt j) g v = true)
+    (hfor : forTargetKilledUnwrittenL D T i j v = false)
+    (hother : otherKillUnwrittenL D T i j v = false)
+    (hrbo : isReadBeforeOverwriteB T i j v = true) :
+    v ∈ OUT (T.nodeAt i) ∧ v ∈ IN (T.nodeAt (i + 1)) :=
+  C07_trace_partial D V IN OUT T hfix hpath i j v hj (C07_gen_of_closure D T j g v s hs hcov) hfor hother hrbo
+
+/-- "… and at the entry of the statement that follows": `LIVE_VARS_IN` of a statement whose entry node is the next node
+contains the variable (given the checked relation `LIVE_VARS_IN(s) = live_in[entry s]`). -/
+theorem C07_live_in_stmt (IN : St Nat) (s : StmtData) (e : Nat) (li : List Nat) (h : liveInOK IN s = true)
+    (he : s.entry = some e) (hl : s.liveIn = some li) (v : Nat) (hv : v ∈ IN e) : v ∈ li :=
+  liveInOK_mem h e li he hl v hv
+
 /-- **worklist_fix** for liveness (`visit_reverse`): quiescent ⇒ fixed point on the visited set, which contains the exits
 and is closed under predecessors. -/
 theorem C07_worklist_fix (D : CfgData) (fuel : Nat) (hq : (liveRunModel D fuel).open_ = []) :
@@ -154,6 +174,7 @@ theorem C07_model_sound (D : CfgData) (fuel : Nat) (hq : (liveRunModel D fuel).o
 (REAL graph / Scope sets / liveness `in_/out` / trace; variables 0 = xs, 1 = x; nodes 2 args, 4 `x = 1`, 9 header, 10 pass, 11 return) -/
 
 def ztD : CfgData where
+  fnId := 1
   graph := { nodes := [2, 4, 9, 10, 11], edges := [(2, 4), (4, 9), (9, 10), (9, 11), (10, 9)] }
   entry := 2
   exits := [11]
@@ -218,6 +239,7 @@ example : (liveRunModel ztD 100).open_ = [] ∧ solEqOn ztD.graph.nodes (liveRun
 26 `y = 0`, 29 `return y`; function 7 = g with read = bound = nonlocals = {x}) -/
 
 def nlD : CfgData where
+  fnId := 1
   graph := { nodes := [2, 4, 7, 18, 19, 22, 26, 29], edges := [(2, 4), (4, 7), (7, 18), (18, 19), (18, 26), (19, 22), (22, 29), (26, 29)] }
   entry := 2
   exits := [29]
@@ -231,8 +253,8 @@ def nlD : CfgData where
     { id := 26, scope := some { read := [], modified := [3], deleted := [], bound := [3], globals := [], nonlocals := [], params := [], annotations := [] }, isForIter := false, forTargets := [], isFnDef := false, fnsIn := some [7] },
     { id := 29, scope := some { read := [3], modified := [], deleted := [], bound := [], globals := [], nonlocals := [], params := [], annotations := [] }, isForIter := false, forTargets := [], isFnDef := false, fnsIn := some [7] }]
   fns := [
-    { id := 1, isLambda := false, read := [0, 2, 3], bound := [0, 1, 2, 3], nonlocals := [] },
-    { id := 7, isLambda := false, read := [1], bound := [1], nonlocals := [1] }]
+    { id := 1, parent := 0, isLambda := false, read := [0, 2, 3], bound := [0, 1, 2, 3], nonlocals := [] },
+    { id := 7, parent := 1, isLambda := false, read := [1], bound := [1], nonlocals := [1] }]
 def nlV : List Nat := [2, 4, 7, 18, 19, 22, 26, 29]
 def nlIN : St Nat := solAt [(2, [0]), (4, [0]), (7, [0]), (18, [0, 2]), (19, [2]), (22, [2]), (26, []), (29, [3])]
 def nlOUT : St Nat := solAt [(2, [0]), (4, [0]), (7, [0, 2]), (18, [2]), (19, [2]), (22, [3]), (26, [3]), (29, [])]
@@ -271,7 +293,7 @@ example : closureReadCovered nlD 22 7 1 = false ∧ nonlocalInReader nlD 7 1 = t
     ∧ forTargetKilledUnwrittenL nlD nlT 4 5 1 = false ∧ otherKillUnwrittenL nlD nlT 4 5 1 = false := by decide
 
 /-- Non-vacuity of the closure part: were `x` not declared nonlocal in `g` (bound = ∅), the read would be covered -/
-example : closureReadCovered { nlD with fns := [{ id := 7, isLambda := false, read := [1], bound := [], nonlocals := [] }] } 22 7 1 = true := by
+example : closureReadCovered { nlD with fns := [{ id := 7, parent := 1, isLambda := false, read := [1], bound := [], nonlocals := [] }] } 22 7 1 = true := by
   decide
 
 end Malt.Analysis.C07
